@@ -74,6 +74,9 @@ PAUSES = (0.2, 1.5, 0.999, 1.0, 30.0, 1.001, 61.0, 0.05, 2.0, 5.0)
 PAUSE_I = [0]
 
 
+OSERR_I = [0]
+
+
 async def run_stream_face(face_cls, chunks, eof=True, gap='yield', face=None, ret_face=False):
     """gap: 'yield' - the loop runs between chunks and before EOF; 'eof-with-last' - the last chunk and EOF become readable in the
     same loop turn; 'burst' - everything (and EOF) is buffered before run() gets to read at all (peer wrote and closed at once)."""
@@ -96,7 +99,13 @@ async def run_stream_face(face_cls, chunks, eof=True, gap='yield', face=None, re
             # the peer (or the network) pauses between two reads - in the middle of a packet, for a fraction of a second up to minutes
             PAUSE_I[0] += 1
             await asyncio.sleep(PAUSES[PAUSE_I[0] % len(PAUSES)])
-    if eof:
+    if eof == 'oserror':
+        # the connection ends with an error of the operating system other than a reset (timed out, host unreachable, aborted):
+        # an end of the stream like any other
+        OSERR_I[0] += 1
+        face.reader.set_exception([TimeoutError(110, 'Connection timed out'), OSError(113, 'No route to host'), ConnectionAbortedError(103, 'Software caused connection abort'),
+                                   BrokenPipeError(32, 'Broken pipe')][OSERR_I[0] % 4])
+    elif eof:
         face.reader.feed_eof()
     for _ in range(6):
         await asyncio.sleep(0)
@@ -201,10 +210,13 @@ def check_framing(ctx, rng):
                 cut = rng.randint(0, k) if k else 0
                 gap = GAPS[gap_i[0] % len(GAPS)]
                 gap_i[0] += 1
-                got, done, running, err = await run_stream_face(TcpFace, [data[:cut], data[cut:k]], gap=gap)
-                judge_framing(ctx, packets, k, got, done, running, err, {'stream': si, 'eof_at': k, 'gap': gap})
+                ends_with = 'oserror' if ((k + si) % 4 == 0 and gap in ('yield', 'pause')) else True      # (data and error in ONE loop turn leave asyncio's StreamReader itself waiting: not the library's)
+                got, done, running, err = await run_stream_face(TcpFace, [data[:cut], data[cut:k]], gap=gap, eof=ends_with)
+                judge_framing(ctx, packets, k, got, done, running, err, {'stream': si, 'eof_at': k, 'gap': gap, 'stream_ends_with': 'an operating-system error' if ends_with == 'oserror' else 'EOF'})
                 ctx.case(('eof', si, k))
                 ctx.event('framing-eof')
+                if ends_with == 'oserror':
+                    ctx.event('framing-stream-ended-by-an-os-error')
     S = vtime.run(body)
     if S.result != 'ok':
         ctx.report(f'framing-scenario-{S.result}', f'framing scenario ended with {S.error!r}', None)
@@ -216,7 +228,9 @@ def judge_framing(ctx, packets, upto, got, done, running, err, w):
     exp = expected_packets(packets, upto)
     ctx.event('framing-run')
     w = dict(w, packets=[p[:40] for p in packets])
-    if got != exp:
+    if w.get('stream_ends_with') == 'an operating-system error' and got == exp[:len(got)]:
+        pass        # (what was buffered in front of a connection error is the event loop's to drop: a prefix of the packets is fine)
+    elif got != exp:
         kind = 'partial-delivered' if len(got) > len(exp) else 'lost-or-wrong'
         ctx.report(f'framing:{kind}', f'callback received {len(got)} packets, stream contains {len(exp)} complete ones',
                    dict(w, got=[(t, b[:40]) for t, b in got]))
@@ -678,6 +692,15 @@ def check_udp(ctx, rng):
             ctx.report('udp-face-dead-after-bad-datagrams', 'a valid datagram is no longer delivered after the malformed ones', None)
         if face.close.done() or face.transport.is_closing():
             ctx.report('udp-transport-closed', 'transport closed by malformed datagrams', None)
+        # the operating system reports two errors for the socket (two ICMP "port unreachable" in a row): the protocol callback returns
+        proto = getattr(face.transport, '_protocol', None) or getattr(face.transport, 'get_protocol', lambda: None)()
+        if proto is not None and hasattr(proto, 'error_received'):
+            for k_ in range(2):
+                try:
+                    proto.error_received(ConnectionRefusedError(111, 'Connection refused'))
+                    ctx.event('udp-error-reported-by-the-socket')
+                except Exception as e:   # noqa
+                    ctx.report(f'udp-error-received-raises:{type(e).__name__}', f'the {k_ + 1}. error reported for the socket made the protocol callback raise {e!r}', None)
         face.shutdown()
         peer.close()
         await asyncio.sleep(0.01)
@@ -877,6 +900,8 @@ def run(ctx):
     ctx.need_event('framing-second-connection-on-one-face')
     ctx.need_event('framing-gap-eof-with-last')
     ctx.need_event('finished-window')
+    ctx.need_event('framing-stream-ended-by-an-os-error')
+    ctx.need_event('udp-error-reported-by-the-socket')
     ctx.need_event('bystander-by-hash-still-pending')
     ctx.need_event('batch-after-a-forward-step-of-the-wall-clock')
     ctx.need_event('signed-interest-whose-validator-outlives-its-lifetime')
